@@ -185,6 +185,23 @@ pub fn run(ctx: &Ctx) -> i32 {
     } else {
         agg.sigs.insert("r=2^255-19".into());
     }
+    // ---- every public name for the scalar field denotes the same modulus: the `Fr` alias, the
+    // curve's associated ScalarField, and the field built from the exported `FrConfig`
+    {
+        ev += 2;
+        type FrFromConfig = ark_ff::Fp256<ark_ff::MontBackend<ark_bulletproofs::curve::zorro::FrConfig, 4>>;
+        let from_cfg = modulus::<FrFromConfig>();
+        let from_curve = modulus::<<G1Affine as AffineRepr>::ScalarField>();
+        if from_cfg != r || from_curve != r {
+            viol(&mut agg, "scalar-field-names-disagree", format!("Fr::MODULUS = {}, field built from FrConfig has modulus {}, the curve's ScalarField {}", r, from_cfg, from_curve));
+        } else {
+            agg.sigs.insert("Fr == FrConfig == ScalarField".into());
+        }
+        type FqFromConfig = ark_ff::Fp256<ark_ff::MontBackend<ark_bulletproofs::curve::zorro::FqConfig, 4>>;
+        if modulus::<FqFromConfig>() != q || modulus::<<G1Affine as AffineRepr>::BaseField>() != q {
+            viol(&mut agg, "base-field-names-disagree", "Fq, FqConfig and the curve's BaseField do not denote the same modulus".into());
+        }
+    }
     // ---- source literals agree with the compiled constants
     let repo = std::path::PathBuf::from(std::env::var("VP_REPO_DIR").unwrap_or_else(|_| "/repo".into()));
     let lits = source_literals(&repo);
